@@ -138,6 +138,8 @@ def run_threadless(case: Dict[str, Any]) -> Dict[str, Any]:
             c.oc.rx = bytearray()
             c.last_io = vc.now
         # ---- set the scene (single steps; the timed part below runs under the real _run_forever) ----
+        if case.get('busy_neighbour') == 'older':
+            open_conn(busy, True)       # accepted BEFORE the connection under test: the reaper meets the active one first
         if scen == 'silent':
             open_conn(main, False, request=False)
         elif scen == 'partial-request':
@@ -149,7 +151,7 @@ def run_threadless(case: Dict[str, Any]) -> Dict[str, Any]:
             open_conn(main, False)
         else:
             open_conn(main, True)
-        if case.get('busy_neighbour'):
+        if case.get('busy_neighbour') and busy.client is None:
             open_conn(busy, True)
         # ---- the timed program ----
         acts = {'tunnel-c2o': ['c-send'], 'tunnel-o2c': ['o-send'], 'tunnel-both': ['c-send', 'o-send'], 'http-keepalive': ['req'],
@@ -353,14 +355,114 @@ def run_threadless(case: Dict[str, Any]) -> Dict[str, Any]:
         vclock.uninstall()
     obs.update({'scenario:' + scen: 1, 'rig:threadless': 1, 'timeout:%d' % T: 1, 'is_inactive_evaluations': len(_evals),
                 'is_inactive_true': sum(1 for e in _evals if e[0]), 'iterations': state['iter'],
-                'busy_neighbour_cases': 1 if case.get('busy_neighbour') else 0})
+                'busy_neighbour_cases': 1 if case.get('busy_neighbour') else 0,
+                'older_busy_neighbour_cases': 1 if case.get('busy_neighbour') == 'older' else 0})
     nontrivial = bool(case['gaps']) or scen in ('pending-output',)
     return {'viol': viol, 'nontrivial': nontrivial, 'inconclusive': state.get('inconclusive'), 'sig': 'tl/%s/%d/%s/%s/%s' % (scen, T, case['eps'], case['gaps'], case.get('busy_neighbour')),
             'obs': obs, 'sets': {'reap_delays': {obs.get('reap_delay_iterations', -1)}},
             'sample': {'case': case, 'program': [str(p)[:40] for p in prog][:30], 'reap_delay_iterations': obs.get('reap_delay_iterations')}}
 
 
+def run_threaded_pending(case: Dict[str, Any]) -> Dict[str, Any]:
+    """Thread-per-connection mode, output pending: the client stops reading while the origin has sent more than the socket
+    buffers take, the stall lasts several timeouts, then the origin sends a tail and the client reads again.  The connection
+    has undelivered output all along, so the idle reaper must leave it alone: the client receives every byte, tail included."""
+    rng = random.Random('c20tp:%s:%s' % (case['seed'], case['i']))
+    T = case['timeout']
+    vc = vclock.install()
+    shim.S.reset()
+    del _evals[:]
+    flags = make_flags(['--timeout', str(T)], cache_key='c20t:%d' % T, threaded=True)
+    rig = ThreadRig(flags)
+    viol: List[Dict[str, Any]] = []
+    obs: Dict[str, int] = {}
+    feat = 'pending-output|threaded'
+    inconclusive = None
+    try:
+        origin = rig.add_origin('127.0.%d.%d' % (rng.randint(0, 250), rng.randint(2, 250)))
+        hp = origin.hostport
+        client, work, th = rig.add_client('tcp', rcvbuf=65536)
+        client.send(b'CONNECT %s HTTP/1.1\r\nHost: %s\r\n\r\n' % (hp, hp))
+        box: Dict[str, Any] = {}
+
+        def acc() -> bool:
+            p = origin.accept()
+            if p is not None:
+                box['oc'] = p
+            return 'oc' in box
+        if not rig.wait(acc, [client], timeout=15) or not rig.wait(lambda: b'\r\n\r\n' in client.rx, [client], timeout=15):
+            inconclusive = 'tunnel-not-established'
+            raise TimeoutError()
+        oc = box['oc']
+        head_len = len(client.rx)
+        flood = G.coded(b'P', 8000000 + case.get('flood', 0))
+        tail = G.coded(b'T', 18000)
+        sent = 0
+        stall = 0
+        end = real_time.time() + 30
+        # the origin pushes until nothing moves any more: kernel buffers full on both legs, the rest sits inside the proxy
+        while sent < len(flood) and real_time.time() < end:
+            n = oc.send(flood[sent:sent + 262144])
+            if n > 0:
+                sent += n
+                stall = 0
+            else:
+                stall += 1
+                if stall > 150:
+                    break
+                real_time.sleep(0.002)
+        real_time.sleep(0.05)
+        n_before = len(_evals)
+        vc.advance(T * 3 + 1.0)         # the client has been silent (not reading, not writing) for three timeouts
+        end = real_time.time() + 5
+        while real_time.time() < end and not any(e[1] > T and e[2] for e in _evals[n_before:]):
+            real_time.sleep(0.005)
+        seen = [e for e in _evals[n_before:] if e[1] > T and e[2]]
+        if not seen:
+            inconclusive = 'reaper-never-looked-at-the-stalled-connection'
+            raise TimeoutError()
+        obs['overdue_with_pending_output_evaluations'] = len(seen)
+        real_time.sleep(0.1)            # a reaper that (wrongly) fired has left its loop by now
+        # the rest of the flood and a tail follow; the client reads again
+        want = flood + tail
+        rest = want[sent:]
+        end = real_time.time() + 60
+        while real_time.time() < end and not client.ended:
+            if rest:
+                n = oc.send(rest[:262144])
+                if n > 0:
+                    rest = rest[n:]
+                elif n < 0:
+                    break
+            client.pump()
+            if len(client.rx) - head_len >= len(want):
+                break
+            if not rest:
+                real_time.sleep(0.001)
+        got = bytes(client.rx[head_len:])
+        if got == want:
+            obs['pending_output_threaded_delivered'] = 1
+        elif client.ended or oc.send_error:
+            viol.append({'key': '%s|closed-with-output-pending' % feat,
+                         'detail': {'timeout': T, 'delivered': len(got), 'owed': len(want), 'in_flight_at_stall': sent,
+                                    'client_ended': client.ended, 'origin_send_error': oc.send_error, 'evals_tail': _evals[-3:],
+                                    'diff': monitors.diff_streams(want, got)}})
+        else:
+            inconclusive = 'drain-watchdog'
+    except TimeoutError:
+        pass
+    finally:
+        rig.close()
+        vclock.uninstall()
+    obs.update({'scenario:pending-output': 1, 'rig:threaded': 1, 'timeout:%d' % T: 1, 'is_inactive_evaluations': len(_evals),
+                'is_inactive_true': sum(1 for e in _evals if e[0])})
+    return {'viol': viol, 'nontrivial': True, 'inconclusive': inconclusive, 'sig': 'thp/%d/%s' % (T, case.get('flood')), 'obs': obs,
+            'sample': {'case': case}}
+
+
 def run_threaded(case: Dict[str, Any]) -> Dict[str, Any]:
+    if case['scenario'] == 'pending-output':
+        return run_threaded_pending(case)
     rng = random.Random('c20t:%s:%s' % (case['seed'], case['i']))
     T = case['timeout']
     scen = case['scenario']
@@ -506,18 +608,18 @@ def cases(tier: str, seed: int):
     n = 420 if tier == 'quick' else 6000
     for i in range(n):
         scen = SCEN[i % len(SCEN)]
-        rigk = 'thread' if (i // len(SCEN)) % 4 == 3 and scen != 'pending-output' else 'step'
+        rigk = 'thread' if (i // len(SCEN)) % 4 == 3 else 'step'
         T = rng.choice([1, 1, 5, 10, 3600])
         ngaps = rng.choice([0, 1, 2, 4]) if scen not in ('silent',) else 0
         gaps = [round(rng.choice([0.1, 0.5, 0.9, 0.99, 0.999]), 3) for _ in range(ngaps)]
         yield {'seed': seed, 'i': i, 'scenario': scen, 'rig': rigk, 'timeout': T, 'gaps': gaps, 'eps': rng.choice([0.001, 0.5]),
-               'busy_neighbour': rigk == 'step' and rng.random() < 0.3 and scen != 'pending-output',
+               'busy_neighbour': (rng.choice(['older', 'younger']) if rigk == 'step' and rng.random() < 0.4 and scen != 'pending-output' else False),
                'flood': rng.choice([600000, 3000000])}
 
 
 def floors(tier: str) -> Dict[str, int]:
     fl = {'reaped_within_bound': 250, 'stay_open_windows': 600, 'rig:threaded': 50, 'rig:threadless': 250, 'is_inactive_evaluations': 3000,
-          'busy_neighbour_survived': 40}
+          'busy_neighbour_survived': 40, 'older_busy_neighbour_cases': 15, 'pending_output_threaded_delivered': 8}
     for s in SCEN:
         fl['scenario:' + s] = 30
     return fl
